@@ -142,6 +142,57 @@ def part_compose(ctx):
                          kernel.slim(bc), None, {"file": name, "batch": mine, "alone": alone})
 
 
+def part_compose_real(ctx):
+    """the same composition predicate with EVERY real rule of the bundle active (default configuration + the
+    aggregate rules that are off by default): workspaces from the aggregate-rule world and the marker world, batch run
+    vs each file alone; compared: the non-aggregate violations (all titles) of each file. Implementation-only: this
+    samples the Env-side hypothesis of `per_file_verdicts_compose` (a rule's per-file report depends on that file
+    only) on the real Rego rules, which are outside the Lean model."""
+    from . import aggworld
+    rng = ctx.rng("compose-real")
+    cases = []
+    for w in range(10 if ctx.quick else 120):
+        files = aggworld.gen_workspace(rng, 2, 5) if w % 2 == 0 else \
+            [{"name": f["name"], "content": f["content"]} for f in kernel.gen_files(rng, 2, 5)]
+        params = {"disable": [], "enable": ["missing-metadata", "agg-x"] if w % 2 == 0 else [], "disableCategory": [],
+                  "enableCategory": [], "disableAll": False, "enableAll": w % 4 == 2, "ignoreFiles": []}
+        for collect in ((False, True) if w % 3 == 0 else (False,)):
+            base = {"op": "kernel.lint", "files": files, "user": None, "params": params, "prefix": "", "collect": collect,
+                    "export": False, "enabled": False, "all": True, "w": (w, collect), "k": "batch"}
+            cases.append(dict(base, id=len(cases)))
+            for f in files:
+                cases.append(dict(base, id=len(cases), files=[f], k="single"))
+    impl = ctx.impl(cases, procs=12)
+    batch = {}
+    for c in cases:
+        i = impl[c["id"]]
+        io = i.get("out") or {}
+        if "panic" in i or "crash" in i:
+            ctx.fail("panic/crash in Lint", kernel.slim(c), None, i)
+            continue
+        if "error" in io:
+            ctx.brk("real-rule workspace could not be linted (harness)", kernel.slim(c), io, None)
+            continue
+        kernel.selfcheck(ctx, c, io)
+        nonagg = [v for v in io.get("violations") or [] if not v[5]]
+        ctx.seen(c, ("compose-real", c["w"], c["k"], c["files"][0]["name"]) if nonagg else None)
+        if c["k"] == "batch":
+            batch[c["w"]] = (c, nonagg)
+            for t in sorted({v[1] for v in nonagg}):
+                ctx.count("real-rule-reporting:" + t)
+            continue
+        if c["w"] not in batch:
+            continue
+        bc, bn = batch[c["w"]]
+        name = c["files"][0]["name"]
+        mine = sorted([v for v in bn if v[3] == name], key=str)
+        alone = sorted(nonagg, key=str)
+        if mine != alone:
+            ctx.fail("a file's single-file violations (real rules) differ between the batch run and linting it alone",
+                     kernel.slim(bc), None, {"file": name, "only_batch": [v for v in mine if v not in alone],
+                                             "only_alone": [v for v in alone if v not in mine], "collect": c["collect"]})
+
+
 def _ignored_count(c, io):
     return 0
 
@@ -149,3 +200,4 @@ def _ignored_count(c, io):
 def run(ctx):
     part_walk(ctx)
     part_compose(ctx)
+    part_compose_real(ctx)
